@@ -9,9 +9,12 @@
 //        std     = std::net::IpAddr::from_str(entry)                    as 4:<addr> | 6:<addr> | x
 //        bits    = IpNet::contains(&peer) for every peer, against the builder's net (else ipnet's; `-` if neither)
 //
-//  S <entryhex,entryhex,..|-> | <step> <step> ...          (layer T: a real exporter on 127.0.0.1:<free port>)
-//        steps:  C:<src u32>:<M><targethex>,<M><targethex>,..   one connection bound to source address <src>
-//                                                               (127.x.y.z), sequential keep-alive requests,
+//  S <4|6|D> <entryhex,entryhex,..|-> | <step> <step> ...  (layer T: a real exporter on a free port of
+//        127.0.0.1 (4), [::1] (6) or the dual-stack wildcard [::] (D))
+//        <src> = 4.<u32> | 6.<u128>: the client socket is bound to that source address before connecting (to
+//        127.0.0.1 for an IPv4 source, to [::1] for an IPv6 source).  The driver runs in a private network
+//        namespace in which every unicast address is local to `lo` (see enter_private_netns), so any source works.
+//        steps:  C:<src>:<M><targethex>,<M><targethex>,..       one connection, sequential keep-alive requests,
 //                                                               M = G (GET) | P (POST, empty body)
 //                G:<src>:<hexbytes>    send bytes, shut down the write side, drain, close
 //                H:<src>:<hexbytes>    send bytes and leave the socket open until the end of the scenario
@@ -25,7 +28,7 @@
 use ipnet::IpNet;
 use metrics_exporter_prometheus::PrometheusBuilder;
 use std::io::{BufRead, Read, Write};
-use std::net::{IpAddr, Ipv4Addr, Ipv6Addr, SocketAddr, SocketAddrV4, TcpStream};
+use std::net::{IpAddr, Ipv4Addr, Ipv6Addr, SocketAddr, TcpStream};
 use std::str::FromStr;
 use std::time::Duration;
 
@@ -108,15 +111,73 @@ fn io_timeout() -> Duration {
     }
 }
 
-fn connect_from(src: u32, port: u16) -> std::io::Result<socket2::Socket> {
+fn parse_src(t: &str) -> IpAddr {
+    let (f, v) = t.split_once('.').unwrap();
+    match f {
+        "4" => IpAddr::V4(Ipv4Addr::from(v.parse::<u32>().unwrap())),
+        "6" => IpAddr::V6(Ipv6Addr::from(v.parse::<u128>().unwrap())),
+        _ => panic!("bad source"),
+    }
+}
+
+fn connect_from(src: IpAddr, port: u16) -> std::io::Result<socket2::Socket> {
     use socket2::{Domain, Protocol, Socket, Type};
-    let s = Socket::new(Domain::IPV4, Type::STREAM, Some(Protocol::TCP))?;
-    s.bind(&SocketAddr::V4(SocketAddrV4::new(Ipv4Addr::from(src), 0)).into())?;
-    s.connect_timeout(&SocketAddr::V4(SocketAddrV4::new(Ipv4Addr::LOCALHOST, port)).into(), io_timeout())?;
+    let (dom, dst) = match src {
+        IpAddr::V4(_) => (Domain::IPV4, SocketAddr::new(IpAddr::V4(Ipv4Addr::LOCALHOST), port)),
+        IpAddr::V6(_) => (Domain::IPV6, SocketAddr::new(IpAddr::V6(Ipv6Addr::LOCALHOST), port)),
+    };
+    let s = Socket::new(dom, Type::STREAM, Some(Protocol::TCP))?;
+    s.bind(&SocketAddr::new(src, 0).into())?;
+    s.connect_timeout(&dst.into(), io_timeout())?;
+    // the kernel silently substitutes another source for unusable ones (0.0.0.0, multicast, broadcast)
+    let actual = s.local_addr()?.as_socket().map(|a| a.ip());
+    assert_eq!(actual, Some(src), "source address was rewritten by the kernel");
     s.set_read_timeout(Some(io_timeout()))?;
     s.set_write_timeout(Some(io_timeout()))?;
     s.set_nodelay(true)?;
     Ok(s)
+}
+
+/// Move this process into a fresh network namespace in which `lo` is up and every unicast IPv4/IPv6 address is
+/// local (AnyIP routes + ip_nonlocal_bind), so that client sockets can be bound to arbitrary source addresses
+/// and the real listener sees them as peer addresses.  Nothing outside the process is affected.
+fn enter_private_netns() {
+    fn die(m: String) -> ! {
+        eprintln!("c18: cannot set up the private network namespace: {}", m);
+        std::process::exit(3)
+    }
+    if unsafe { libc::unshare(libc::CLONE_NEWNET) } != 0 {
+        die(format!("unshare(CLONE_NEWNET): {}", std::io::Error::last_os_error()));
+    }
+    let ip = |args: &[&str]| match std::process::Command::new("ip").args(args).output() {
+        Ok(o) if o.status.success() => {}
+        Ok(o) => die(format!("ip {:?}: {}", args, String::from_utf8_lossy(&o.stderr))),
+        Err(e) => die(format!("ip {:?}: {}", args, e)),
+    };
+    ip(&["link", "set", "lo", "up"]);
+    for (f, v) in [("/proc/sys/net/ipv6/ip_nonlocal_bind", "1"), ("/proc/sys/net/ipv6/bindv6only", "0")] {
+        if let Err(e) = std::fs::write(f, v) {
+            die(format!("{}: {}", f, e));
+        }
+    }
+    for r in ["::/1", "8000::/1"] {
+        ip(&["-6", "route", "add", "local", r, "dev", "lo"]);
+    }
+    for r in ["0.0.0.0/1", "128.0.0.0/2", "192.0.0.0/3"] {
+        ip(&["route", "add", "local", r, "dev", "lo"]);
+    }
+    // what the generator assumes about the kernel: a dual-stack listener reports an IPv4 client as ::ffff:a.b.c.d
+    // and an IPv6 client under its own address
+    let l = std::net::TcpListener::bind("[::]:0").unwrap_or_else(|e| die(format!("bind [::]:0: {}", e)));
+    let port = l.local_addr().unwrap().port();
+    for (src, seen) in [("10.1.2.3", "::ffff:10.1.2.3"), ("2001:db8::7", "2001:db8::7"), ("::2", "::2"), ("0.0.0.1", "::ffff:0.0.0.1")] {
+        let c = connect_from(src.parse().unwrap(), port).unwrap_or_else(|e| die(format!("connect from {}: {}", src, e)));
+        let (_, peer) = l.accept().unwrap_or_else(|e| die(format!("accept: {}", e)));
+        if peer.ip() != seen.parse::<IpAddr>().unwrap() {
+            die(format!("a client at {} is reported as {}, expected {}", src, peer.ip(), seen));
+        }
+        drop(c);
+    }
 }
 
 /// read one HTTP/1.1 response (status, body) from the stream; `buf` carries bytes read ahead
@@ -189,7 +250,7 @@ fn show_resp(r: &Result<(u16, Vec<u8>), String>) -> String {
     }
 }
 
-fn do_conn(src: u32, port: u16, reqs: &[(char, Vec<u8>)]) -> Vec<Result<(u16, Vec<u8>), String>> {
+fn do_conn(src: IpAddr, port: u16, reqs: &[(char, Vec<u8>)]) -> Vec<Result<(u16, Vec<u8>), String>> {
     let mut out = vec![];
     let sock = match connect_from(src, port) {
         Ok(s) => s,
@@ -230,7 +291,14 @@ fn do_conn(src: u32, port: u16, reqs: &[(char, Vec<u8>)]) -> Vec<Result<(u16, Ve
 
 fn server_case(rest: &str) -> String {
     let (head, steps) = rest.split_once('|').unwrap();
-    let head = head.trim();
+    let mut hs = head.split_whitespace();
+    let listen_ip: IpAddr = match hs.next().unwrap() {
+        "4" => IpAddr::V4(Ipv4Addr::LOCALHOST),
+        "6" => IpAddr::V6(Ipv6Addr::LOCALHOST),
+        "D" => IpAddr::V6(Ipv6Addr::UNSPECIFIED),
+        _ => panic!("bad listener kind"),
+    };
+    let head = hs.next().unwrap();
     let mut b = PrometheusBuilder::new();
     if head != "-" {
         for e in head.split(',') {
@@ -247,7 +315,7 @@ fn server_case(rest: &str) -> String {
     let mut b = Some(b);
     for _attempt in 0..20 {
         let port = {
-            let l = std::net::TcpListener::bind((Ipv4Addr::LOCALHOST, 0)).unwrap();
+            let l = std::net::TcpListener::bind(SocketAddr::new(listen_ip, 0)).unwrap();
             l.local_addr().unwrap().port()
         };
         // PrometheusBuilder is not Clone: rebuild the allowlist through the public API on every attempt
@@ -258,7 +326,7 @@ fn server_case(rest: &str) -> String {
             }
         }
         let _ = b.take();
-        let nb = nb.with_http_listener(SocketAddr::V4(SocketAddrV4::new(Ipv4Addr::LOCALHOST, port)));
+        let nb = nb.with_http_listener(SocketAddr::new(listen_ip, port));
         let built = {
             let _g = rt.enter();
             nb.build()
@@ -291,7 +359,7 @@ fn server_case(rest: &str) -> String {
                 out.push("i".into());
             }
             "C" => {
-                let src: u32 = parts[1].parse().unwrap();
+                let src = parse_src(parts[1]);
                 let reqs: Vec<(char, Vec<u8>)> = parts[2]
                     .split(',')
                     .map(|r| (r.chars().next().unwrap(), unhex(&r[1..])))
@@ -308,7 +376,7 @@ fn server_case(rest: &str) -> String {
             }
             "B" => {
                 let n: usize = parts[1].parse().unwrap();
-                let src: u32 = parts[2].parse().unwrap();
+                let src = parse_src(parts[2]);
                 let target = unhex(parts[3]);
                 let before = handle.render();
                 let ths: Vec<_> = (0..n)
@@ -327,7 +395,7 @@ fn server_case(rest: &str) -> String {
                 ));
             }
             "G" | "H" | "R" => {
-                let src: u32 = parts[1].parse().unwrap();
+                let src = parse_src(parts[1]);
                 let bytes = unhex(parts.get(2).copied().unwrap_or(""));
                 if let Ok(s) = connect_from(src, port) {
                     let mut st: TcpStream = s.try_clone().unwrap().into();
@@ -365,6 +433,7 @@ fn server_case(rest: &str) -> String {
 }
 
 fn main() {
+    enter_private_netns();
     let stdin = std::io::stdin();
     let stdout = std::io::stdout();
     let mut w = std::io::BufWriter::new(stdout.lock());
